@@ -144,6 +144,16 @@ def lerpable : Ty → Bool
   | .pair a b => lerpable a && lerpable b
   | t => (affineDiff t).bind linearScalar == some f32
 
+/-- `<T as Vary>::Diff` (space.rs:155-178: the blanket impl for `Clone + Affine<Diff: Linear<Scalar = f32> +
+Clone> + ZDiv`, every such type with `f32` components is `ZDiv`; vary.rs:71-100: `()` and pairs). -/
+def varyDiff : Ty → Option Ty
+  | .unit => some .unit
+  | .pair a b =>
+    match varyDiff a, varyDiff b with
+    | some da, some db => some (.pair da db)
+    | _, _ => none
+  | t => if lerpable t then affineDiff t else none
+
 /-! ### The expression language: one constructor per public API entry -/
 
 inductive Op1 where
@@ -176,6 +186,9 @@ inductive Op2 where
   | mAdd | mSub | mMul           -- `a.add(&b)`, `a.sub(&b)`, `a.mul(b)`
   | addAssign | subAssign | mulAssign | divAssign   -- `{ let mut t = a; t += b; t }` …
   | dot | cross | distance | vproj   -- vproj: `a.vector_project(&b)`
+  | sproj | distanceSqr          -- `a.scalar_project(&b)`, `a.distance_sqr(&b)`
+  | rem                          -- `a % b`
+  | orientY | orientZ            -- `orient_y(a, b)`, `orient_z(a, b)`
   | min                          -- `a.min(b)`
   | apply | applyPt | compose | thn
   | polar | atan2
@@ -184,6 +197,8 @@ inductive Op2 where
 
 inductive Op3 where
   | lerp                         -- `a.lerp(&b, t)`
+  | clamp                        -- `a.clamp(&b, &c)`    Vector::clamp / Point::clamp
+  | dvdt                         -- `a.dv_dt(&b, t)`     Vary::dv_dt
   | spherical                    -- `spherical(r, az, alt)`
   deriving DecidableEq, Repr, Inhabited
 
@@ -417,6 +432,22 @@ def ty2 (o : Op2) (x y : Ty) : Option Ty :=
   | .dot => match x with | .vec s _ _ => if scLinear s ∧ y = x then some (.sc s) else none | _ => none
   -- vec.rs:219  vector_project(&self, other: &Self) -> Self where Sc: Div<Sc, Output = Sc>
   | .vproj => match x with | .vec s _ _ => if scLinear s ∧ y = x then some x else none | _ => none
+  -- vec.rs:199  scalar_project(&self, other: &Self) -> Sc where Sc: Div<Sc, Output = Sc>
+  | .sproj => match x with | .vec s _ _ => if scLinear s ∧ y = x then some (.sc s) else none | _ => none
+  -- point.rs:91  impl<const N, B> Point<[f32; N], Real<N, B>> { distance_sqr(&self, other: &Self) -> f32 }
+  | .distanceSqr =>
+    match x with
+    | .pt .f32 n (.real n' _) => if n = n' ∧ y = x then some f32 else none
+    | _ => none
+  -- angle.rs:530  impl Rem for Angle;  core: f32 % f32, i32 % i32, …
+  | .rem =>
+    match x with
+    | .sc _ => if y = x then some x else none
+    | .angle => if y = .angle then some .angle else none
+    | _ => none
+  -- mat.rs:526, 536  orient_y(new_y: Vec3, x: Vec3), orient_z(new_z: Vec3, x: Vec3) -> Mat4x4<RealToReal<3>>
+  | .orientY | .orientZ =>
+    if x = .vec .f32 3 (.real 3 .unit) ∧ y = x then some (.mat 4 (.r2r 3 .unit .unit)) else none
   -- angle.rs:178  Angle::min(self, other: Self) -> Self;  core: f32::min, Ord::min for the integers
   | .min =>
     match x with
@@ -445,6 +476,15 @@ def ty3 (o : Op3) (x y z : Ty) : Option Ty :=
   match o with
   -- math.rs:91  fn lerp(&self, other: &Self, t: f32) -> Self
   | .lerp => if lerpable x ∧ y = x ∧ z = f32 then some x else none
+  -- vec.rs:167   impl Vector<[f32; N], Sp> { clamp(&self, min: &Self, max: &Self) -> Self }
+  -- point.rs:109 impl Point<[f32; N], Real<N, B>> { clamp(&self, min: &Self, max: &Self) -> Self }
+  | .clamp =>
+    match x with
+    | .vec .f32 _ _ => if y = x ∧ z = x then some x else none
+    | .pt .f32 n (.real n' _) => if n = n' ∧ y = x ∧ z = x then some x else none
+    | _ => none
+  -- vary.rs:57  fn dv_dt(&self, other: &Self, recip_dt: f32) -> Self::Diff
+  | .dvdt => match varyDiff x with | some d => if y = x ∧ z = f32 then some d else none | none => none
   -- angle.rs:140  spherical(r: f32, az: Angle, alt: Angle) -> SphericalVec
   | .spherical => if x = f32 ∧ y = .angle ∧ z = .angle then some (.vec .f32 3 .spherical) else none
 
@@ -541,7 +581,8 @@ def unitClash (x y : Ty) : Option Misuse :=
 
 /-- Operators that combine their two operands component-wise. -/
 def Op2.additive : Op2 → Bool
-  | .add | .sub | .mAdd | .mSub | .addAssign | .subAssign | .dot | .cross | .distance | .vproj => true
+  | .add | .sub | .mAdd | .mSub | .addAssign | .subAssign | .dot | .cross | .distance | .vproj
+  | .sproj | .distanceSqr | .orientY | .orientZ => true
   | _ => false
 
 def mis1 (o : Op1) (x : Ty) : Option Misuse :=
@@ -621,7 +662,7 @@ def mis2 (o : Op2) (x y : Ty) : Option Misuse :=
   | .polar => if x.isAngle || y.isScalar then some .angleUnit else none
   | .atan2 => if x.isAngle || y.isAngle then some .angleUnit else none
   | .mul | .div | .mMul | .mulAssign | .divAssign | .pairOf => none
-  | .min => unitClash x y
+  | .min | .rem => unitClash x y
   | _ =>
     -- the additive family
     if (o = .add ∨ o = .mAdd ∨ o = .addAssign) ∧ x.isPt ∧ y.isPt then some .addPoints
@@ -634,6 +675,17 @@ def mis2 (o : Op2) (x y : Ty) : Option Misuse :=
 def mis3 (o : Op3) (x y z : Ty) : Option Misuse :=
   match o with
   | .lerp =>
+    match tagClash x y with
+    | some m => some m
+    | none =>
+      match unitClash x y with
+      | some m => some m
+      | none => if z.isAngle then some .angleUnit else none
+  | .clamp =>
+    match tagClash x y with
+    | some m => some m
+    | none => tagClash x z
+  | .dvdt =>
     match tagClash x y with
     | some m => some m
     | none =>
